@@ -23,6 +23,7 @@ AbstractParameterAliasable::AbstractParameterAliasable(const AbstractParameterAl
   {
     auto listener = shared_ptr<AliasParameterListener>(it.second->clone());
     listener->setParameterList(&getParameters_());
+    listener->setRegister(&aliasListenersRegister_);
     aliasListenersRegister_[it.first] = listener;
     // Now correct parameters with appropriate pointers:
     for (unsigned int i = 0; i < getNumberOfParameters(); ++i)
@@ -58,6 +59,7 @@ AbstractParameterAliasable& AbstractParameterAliasable::operator=(const Abstract
   {
     auto listener = shared_ptr<AliasParameterListener>(it.second->clone());
     listener->setParameterList(&getParameters_());
+    listener->setRegister(&aliasListenersRegister_);
     aliasListenersRegister_[it.first] = listener;
     // Now correct parameters with appropriate pointers:
     for (unsigned int i = 0; i < getNumberOfParameters(); ++i)
@@ -175,7 +177,7 @@ void AbstractParameterAliasable::aliasParameters(const std::string& p1, const st
 
   // Every thing seems ok, let's create the listener and register it:
 
-  auto aliasListener = make_shared<AliasParameterListener>(id, getParameters().whichParameterHasName(getNamespace() + p2), &getParameters_(), p1);
+  auto aliasListener = make_shared<AliasParameterListener>(id, getParameters().whichParameterHasName(getNamespace() + p2), &getParameters_(), p1, &aliasListenersRegister_);
 
   aliasListenersRegister_[id] = aliasListener;
 
